@@ -55,11 +55,20 @@ def _is_empty_clock(t):
 def _agg_sites(facts, body):
     """Statements that build a ReadCtx aggregate in `body`: list of (bb, {field: operand})."""
     out = []
+    # only the aggregates that are (moved into) the return value: another read of self inlined into this one builds its own
+    returned = {0}
+    for _ in range(3):
+        for blk in body.blocks:
+            for s in blk['stmts']:
+                if s['k'] == 'assign' and not s['place']['proj'] and s['place']['local'] in returned and s['rv']['k'] == 'use' \
+                        and s['rv']['op'].get('k') in ('move', 'copy') and not s['rv']['op']['place']['proj']:
+                    returned.add(s['rv']['op']['place']['local'])
     for bb, blk in enumerate(body.blocks):
         if blk['cleanup']:
             continue
         for s in blk['stmts']:
-            if s['k'] == 'assign' and s['rv']['k'] == 'agg' and s['rv'].get('path') == READCTX:
+            if s['k'] == 'assign' and s['rv']['k'] == 'agg' and s['rv'].get('path') == READCTX and not s['place']['proj'] \
+                    and s['place']['local'] in returned:
                 out.append((bb, dict(zip(s['rv']['fields'], s['rv']['ops']))))
     return out
 
